@@ -105,6 +105,9 @@ def arm_protocol(ctx, prog, ap, region, trackers, R, akey, where):
                     ctx.touch(fb)
                     acc |= tracker_calls(prog, fb, trackers, "start" if which == "setup" else "end")
     names = lambda s: sorted(x.split("::")[-1] for x in s)
+    # non-vacuous: the arm hands its command to the runner itself (through a helper the sets above would all be empty)
+    ctx.check(n_runner >= 1, "C03.a", "%s:arm-calls-the-runner" % akey, where, "%d runner call(s) in the arm" % n_runner,
+              "the arm of this command kind does not call the runner directly: its prepare/start/end sets cannot be read on this view")
     ctx.check(P == S == E, "C03.a", "%s:prepare=start=end" % akey, where,
               "prepared %s = started %s = ended %s" % (names(P), names(S), names(E)),
               "trackers prepared %s, started by the setup %s, ended by the cleanup %s differ" % (names(P), names(S), names(E)))
